@@ -161,7 +161,7 @@ Fixpoint node_attrs (id : Z) (ns : list (Z * attrs)) : option attrs :=
   | (k, b) :: r => if k =? id then Some b else node_attrs id r
   end.
 Definition set_node_attr (id : Z) (k : string) (v : val) (ns : list (Z * attrs)) : list (Z * attrs) :=
-  map (fun n => if fst n =? id then (fst n, aset k v (snd n)) else n) ns.
+  map (fun n : Z * attrs => if fst n =? id then (fst n, aset k v (snd n)) else n) ns.
 
 (* graph.add_edge(u, v); nx.set_edge_attributes(graph, {(u, v): attrs}) *)
 Definition graph_add_edge (u v : Z) (a : attrs) (g : graph) : graph :=
@@ -169,10 +169,10 @@ Definition graph_add_edge (u v : Z) (a : attrs) (g : graph) : graph :=
 
 (* in-degree + out-degree (a self loop counts twice) *)
 Definition degree (es : list (edge * attrs)) (n : Z) : nat :=
-  Nat.add (length (filter (fun e => fst (fst e) =? n) es)) (length (filter (fun e => snd (fst e) =? n) es)).
+  Nat.add (length (filter (fun e : edge * attrs => fst (fst e) =? n) es)) (length (filter (fun e : edge * attrs => snd (fst e) =? n) es)).
 Definition remove_nodes (rm : list Z) (g : graph) : graph :=
-  mkg (filter (fun n => negb (zmem (fst n) rm)) (g_nodes g))
-      (filter (fun e => negb (zmem (fst (fst e)) rm) && negb (zmem (snd (fst e)) rm)) (g_edges g)).
+  mkg (filter (fun n : Z * attrs => negb (zmem (fst n) rm)) (g_nodes g))
+      (filter (fun e : edge * attrs => negb (zmem (fst (fst e)) rm) && negb (zmem (snd (fst e)) rm)) (g_edges g)).
 
 (* ---------- _add_all_nodes ---------- *)
 Fixpoint add_all_nodes (md : mdmap) (seg : bool) (sps : list spot) (g : graph) : res (graph * bool) :=
@@ -258,7 +258,7 @@ Fixpoint build_tracks (md : mdmap) (trs : list track) (g : graph) : res graph :=
 
 (* ---------- the discard options ---------- *)
 Definition lone_nodes (g : graph) : list Z :=
-  map fst (filter (fun n => Nat.eqb (degree (g_edges g) (fst n)) 0) (g_nodes g)).
+  map fst (filter (fun n : Z * attrs => Nat.eqb (degree (g_edges g) (fst n)) 0) (g_nodes g)).
 Definition discard_lone (g : graph) : graph := remove_nodes (lone_nodes g) g.
 
 (* _get_filtered_tracks_ID: int(attrs["TRACK_ID"]); an element without the attribute is skipped with a warning *)
@@ -281,7 +281,7 @@ Definition not_kept (keep : list Z) (t : option val) : bool :=
   | Some _ => true
   end.
 Definition unkept_nodes (keep : list Z) (g : graph) : list Z :=
-  map fst (filter (fun n => not_kept keep (alookup "TRACK_ID" (snd n))) (g_nodes g)).
+  map fst (filter (fun n : Z * attrs => not_kept keep (alookup "TRACK_ID" (snd n))) (g_nodes g)).
 Definition discard_tracks (keep : list Z) (g : graph) : graph := remove_nodes (unkept_nodes keep g) g.
 
 (* ---------- _build_data ---------- *)
@@ -387,7 +387,7 @@ Definition extract_props_metadata (d : tm) (seg : bool) : res (fmetas * fmetas *
 
 (* _ensure_data_metadata_consistency: entries naming a property that no element carries are dropped *)
 Definition prune_md (elts : list attrs) (m : fmetas) : fmetas :=
-  filter (fun kv => existsb (fun a => ahas (fst kv) a) elts) m.
+  filter (fun kv : string * fmeta => existsb (fun a : attrs => ahas (fst kv) a) elts) m.
 
 (* ---------- _extract_image_path / _build_geff_metadata ---------- *)
 Definition image_path (d : tm) : option string :=
@@ -421,7 +421,7 @@ Record tmextra := mkx {
   x_lineage_md : list (string * (bool * string * string));(* ...lineage_props_metadata: key -> (is int, name, unit) *)
   x_tags : list string }.                                 (* further keys of other_trackmate_metadata, in order *)
 
-Definition has_track_ids (g : graph) : bool := existsb (fun n => ahas "TRACK_ID" (snd n)) (g_nodes g).
+Definition has_track_ids (g : graph) : bool := existsb (fun n : Z * attrs => ahas "TRACK_ID" (snd n)) (g_nodes g).
 
 Definition extra_of (d : tm) (g : graph) (lmd : fmetas) : tmextra :=
   mkx (if has_track_ids g then Some "TRACK_ID" else None)
@@ -436,9 +436,9 @@ Definition extra_of (d : tm) (g : graph) (lmd : fmetas) : tmextra :=
 (* ---------- NxBackend.write / write_dicts ---------- *)
 (* graph.edges(data=True): by source node in node order, then by insertion of the target *)
 Definition edges_out (g : graph) : list (edge * attrs) :=
-  flat_map (fun n => filter (fun e => fst (fst e) =? fst n) (g_edges g)) (g_nodes g).
+  flat_map (fun n : Z * attrs => filter (fun e : edge * attrs => fst (fst e) =? fst n) (g_edges g)) (g_nodes g).
 
-Definition eflat (es : list edge) : list Z := flat_map (fun e => [fst e; snd e]) es.
+Definition eflat (es : list edge) : list Z := flat_map (fun e : edge => [fst e; snd e]) es.
 
 (* np.asarray(node_ids) ... .astype("uint"); ids from 2^63 on leave the int64 inference of numpy: outside the model *)
 Definition ids_arr (ids : list Z) : res arr :=
@@ -450,7 +450,7 @@ Definition ids_arr (ids : list Z) : res arr :=
   end.
 
 (* {k for _, data in ... for k in data}: a set (order immaterial: properties form a dict) *)
-Definition keys_of (elts : list attrs) : list string := dedup String.eqb (flat_map (fun a => akeys a) elts).
+Definition keys_of (elts : list attrs) : list string := dedup String.eqb (flat_map (fun a : attrs => akeys a) elts).
 
 (* _determine_default_value *)
 Fixpoint first_present (name : string) (elts : list attrs) : option val :=
@@ -468,9 +468,9 @@ Definition default_val (v : val) : val :=
 Definition col_default (name : string) (elts : list attrs) : val :=
   match first_present name elts with Some v => default_val v | None => VInt 0 end.
 Definition col_values (name : string) (elts : list attrs) : list val :=
-  map (fun a => match alookup name a with Some v => v | None => col_default name elts end) elts.
+  map (fun a : attrs => match alookup name a with Some v => v | None => col_default name elts end) elts.
 Definition col_missing (name : string) (elts : list attrs) : list bool :=
-  map (fun a => negb (ahas name a)) elts.
+  map (fun a : attrs => negb (ahas name a)) elts.
 
 (* np.asarray(values) on the kinds of value lists that occur *)
 Definition is_vint (v : val) : bool := match v with VInt _ => true | _ => false end.
